@@ -454,6 +454,8 @@ class Cache:
         self._timeout = 0  # Manually handle retries during initialization.
         self._local = threading.local()
         self._txn_id = None
+        self._txn_cleanup = None
+        self._txn_created = None
 
         if not op.isdir(directory):
             try:
@@ -728,12 +730,18 @@ class Cache:
 
         if tid == txn_id:
             begin = False
+            # Nested in a transaction of this thread. Files are removed by
+            # the outermost transaction: replaced files after it commits,
+            # files written for it if it rolls back.
+            filenames = self._txn_cleanup
         else:
             while True:
                 try:
                     sql('BEGIN IMMEDIATE')
                     begin = True
                     self._txn_id = tid
+                    self._txn_cleanup = filenames
+                    self._txn_created = []
                     break
                 except sqlite3.OperationalError:
                     if retry:
@@ -742,6 +750,9 @@ class Cache:
                         _disk_remove(filename)
                     raise Timeout from None
 
+        if filename is not None:
+            self._txn_created.append(filename)
+
         try:
             yield sql, filenames.append
         except BaseException:
@@ -749,17 +760,25 @@ class Cache:
                 assert self._txn_id == tid
                 self._txn_id = None
                 sql('ROLLBACK')
-                if filename is not None:
-                    _disk_remove(filename)
+                for name in self._txn_created:
+                    _disk_remove(name)
             raise
         else:
             if begin:
                 assert self._txn_id == tid
                 self._txn_id = None
                 sql('COMMIT')
-            for name in filenames:
-                if name is not None:
-                    _disk_remove(name)
+                for name in filenames:
+                    if name is not None:
+                        _disk_remove(name)
+
+    def _remove_committed(self, filename):
+        # Remove the file of a deleted row: at once, or after the enclosing
+        # transaction of this thread commits.
+        if self._txn_id == threading.get_ident():
+            self._txn_cleanup.append(filename)
+        else:
+            self._disk.remove(filename)
 
     def set(self, key, value, expire=None, read=False, tag=None, retry=False):
         """Set `key` and `value` item in cache.
@@ -1337,7 +1356,7 @@ class Cache:
             return default
         finally:
             if filename is not None:
-                self._disk.remove(filename)
+                self._remove_committed(filename)
 
         if expire_time and tag:
             return value, db_expire_time, db_tag
@@ -1606,7 +1625,7 @@ class Cache:
                 continue
             finally:
                 if name is not None:
-                    self._disk.remove(name)
+                    self._remove_committed(name)
             break
 
         if expire_time and tag:
